@@ -15,7 +15,7 @@ CHECKS = {
  "C02": (MC, WS + "; differential oracle index-based read vs scan, random access through every index entry",
          "Same enumeration; for indexable configurations the file-order indexed sequence must equal the scan element-wise (time orders: permutation), for all others equal-or-error; every attachment/metadata index entry is dereferenced and compared; metadata callback counted on both paths; every sequence of <=3 reader calls (Info, Messages in each mode, random access) on one Reader must return what a fresh Reader returns.", TB, "DESIGN §4 C02"),
  "C03": (MC, "exhaustive enumeration of chunk/timestamp arrangements built by the reference encoder, run through the real indexed iterator",
-         "Every file of <=3 chunks x <=3 messages over a 4-value time domain (plus two-channel, compressed and >12-element tie families) is read in file, log-time and reverse order twice; oracle: exactly-once, monotone, file order among same-chunk ties, repeatable - also after any earlier call on the same Reader (reader histories).", TB, "DESIGN §4 C03"),
+         "Every file of <=3 chunks x <=3 messages over a 4-value time domain (plus two-channel, compressed and >12-element tie families) is read in file, log-time and reverse order twice; oracle: exactly-once, monotone, file order among same-chunk ties, repeatable - also after any earlier call on the same Reader (reader histories), and under a selection (each single topic, the window cutting off the smallest log time).", TB, "DESIGN §4 C03"),
  "C04": (MC, "exhaustive enumeration of files x windows x option spellings x topic sets x read modes against the model filter",
          "For every small arrangement, every window over the critical time set expressed through each of 9 option spellings, every topic set and 4 read modes must return exactly the messages the model filter selects, also after earlier calls on the same Reader.", TB, "DESIGN §4 C04"),
  "C05": (MC, WS + "; spec validator oracle",
@@ -23,7 +23,7 @@ CHECKS = {
  "C06": (MC, WS + "; independent CRC recomputation",
          "Data-section, summary, chunk and attachment CRCs of every produced file are recomputed from the file bytes over the byte ranges the specification defines (zero for the first three when checksums are off).", TB, "DESIGN §4 C06"),
  "C07": (FE, "exhaustive single-bit-flip (and small multi-byte) fault enumeration over chunk payloads and attachment records, real validating lexer",
-         "Every single-bit flip of every byte of every chunk's stored records field and of every attachment record's content is applied to written files (none/zstd/lz4) and read with the validating lexer (with and without invalid-chunk tokens): altered data must never be delivered as good; crafted attachment records (cut/hostile header fields, empty data) and both orders of the CRC calls are included; thorough adds bit pairs, 2-byte overwrites and range swaps.", TB + " An error that errors.Is(io.EOF) with records missing does not count as a report.", "DESIGN §4 C07"),
+         "Every single-bit flip of every byte of every chunk's stored records field and of every attachment record's content is applied to written files (none/zstd/lz4) and read with the validating lexer (with and without invalid-chunk tokens): altered data must never be delivered as good; crafted attachment records (cut/hostile header fields, empty data), both orders of the CRC calls, lz4 frames without content checksum and a caller-supplied codec on both sides are included; thorough adds bit pairs, 2-byte overwrites and range swaps.", TB + " An error that errors.Is(io.EOF) with records missing does not count as a report.", "DESIGN §4 C07"),
  "C08": (MC, WS + "; oracle = aggregates of the call log vs Writer.Statistics, statistics record and Info",
          "Writer.Statistics after Close, the statistics record decoded by the reference decoder and Reader.Info must equal the true aggregates of the call log; Info listings must equal the summary groups the file keeps, whatever was called on the Reader before; counts also hold for files re-emitted through the raw-record API.", TB, "DESIGN §4 C08"),
  "C09": (FE, "crash-point enumeration: every truncation position of every small written file, read by lexer and non-indexed iterator",
